@@ -138,8 +138,11 @@ func RunCase(run *vk.Run, w *world.World, c *coregen.Case, n int, armored bool, 
 	if derr == nil || r != nil {
 		got := 0
 		if r != nil {
-			b, _ := io.ReadAll(r)
-			got = len(b)
+			func() {
+				defer func() { recover() }() // a reader that is a nil pointer in disguise crashes when used
+				b, _ := io.ReadAll(r)
+				got = len(b)
+			}()
 		}
 		run.Violation("C04:reader-without-matching-identity:"+sig, fmt.Sprintf("file for [%s], identities [%s] (none listed): Decrypt returned a reader (err=%v), %d plaintext bytes readable", coregen.RecipSig(c.Rs), strings.Join(c.Ids, ","), derr, got), rp)
 		return
@@ -237,6 +240,7 @@ func runBoth(which, tier string) {
 	if which == "C01" {
 		armorAlignment(run, w, pt)
 		workFactorBoundary(run)
+		passphraseRoundTrips(run)
 		c19.OpensWhenAddressed(run)
 	} else {
 		nearMisses(run, w, pt)
@@ -297,5 +301,42 @@ func workFactorBoundary(run *vk.Run) {
 					map[string]interface{}{"check": "C01.wfboundary", "wf": wf, "max": max})
 			}
 		}
+	}
+}
+
+// passphraseRoundTrips: a passphrase is a byte string. Whatever it looks like - line terminators or blanks at either end,
+// only a line terminator, invalid UTF-8, longer than any fixed buffer - the identity made from the same string opens
+// the file, and it does so again on a second file (the identity value is not used up by a call).
+func passphraseRoundTrips(run *vk.Run) {
+	long := strings.Repeat("correct horse battery staple ", 9)
+	for i, pw := range []string{"typed with its newline\n", "pasted\r\n", "trailing blank ", " leading blank", "\n", "\r", " ", "caf\xe9", "\xff\xfe\xfd", "caf\u00e9", long, long[:128], long[:129], long[:64], long[:65], "tab\tinside", "x"} {
+		id, err := age.NewScryptIdentity(pw)
+		if err != nil {
+			continue // refusing a passphrase outright (on both sides) is not this property's business
+		}
+		for round := 0; round < 2; round++ {
+			msg := []byte(fmt.Sprintf("passphrase round trip %d/%d", i, round))
+			sr, err := age.NewScryptRecipient(pw)
+			if err != nil {
+				run.Violation(fmt.Sprintf("C01:listed-recipient-cannot-decrypt:passphrase-%d", i), fmt.Sprintf("passphrase %q is accepted by NewScryptIdentity and refused by NewScryptRecipient: %v", pw, err), nil)
+				break
+			}
+			sr.SetWorkFactor(2 + round)
+			file, err := encryptTo(sr, msg)
+			if err != nil {
+				vk.Infra("%v", err)
+			}
+			r, err := age.Decrypt(bytes.NewReader(file), id)
+			var got []byte
+			if err == nil {
+				got, err = io.ReadAll(r)
+			}
+			run.Eval(1)
+			if err != nil || !bytes.Equal(got, msg) {
+				run.Violation(fmt.Sprintf("C01:listed-recipient-cannot-decrypt:passphrase-%d/use%d", i, round+1), fmt.Sprintf("a file encrypted with passphrase %q is not opened by the identity made from the same string (use %d of that identity value): %v", pw, round+1, err), map[string]interface{}{"check": "C01.passphrase", "passphrase": pw, "use": round + 1})
+				break
+			}
+		}
+		run.Distinct(fmt.Sprintf("pw-roundtrip:%d", i))
 	}
 }
